@@ -294,4 +294,66 @@ void Ctx::c19() {
     }
 }
 
+// ------------------------------------------------------------------ C20 (simulated exchange per category x byte)
+void Ctx::c20x() {
+    int cat = -1, byte = -1;
+    if (sscanf(s.plan.knobs.focus.c_str(), "C20x:%d:%d", &cat, &byte) != 2) return;
+    auto& B = s.broker;
+    static const std::set<int> connack{0x00,0x80,0x81,0x82,0x83,0x84,0x85,0x86,0x87,0x88,0x89,0x8a,0x8c,0x90,0x95,0x97,0x99,0x9a,0x9b,0x9c,0x9d,0x9f};
+    static const std::set<int> puback{0x00,0x10,0x80,0x83,0x87,0x90,0x91,0x97,0x99};
+    static const std::set<int> pubrel{0x00,0x92};
+    static const std::set<int> suback{0x00,0x01,0x02,0x80,0x83,0x87,0x8f,0x91,0x97,0x9e,0xa1,0xa2};
+    static const std::set<int> unsuback{0x00,0x11,0x80,0x83,0x87,0x8f,0x91};
+    static const std::set<int> auth{0x00,0x18,0x19}, auth_srv{0x00,0x18};
+    static const std::set<int> disc{0x00,0x04,0x80,0x81,0x82,0x83,0x87,0x89,0x8b,0x8d,0x8e,0x8f,0x90,0x93,0x94,0x95,0x96,0x97,0x98,0x99,0x9a,0x9b,0x9c,0x9d,0x9e,0x9f,0xa0,0xa1,0xa2};
+    const std::set<int>* listed_tab[9] = {&connack, &puback, &puback, &pubrel, &pubrel, &suback, &unsuback, &auth, &disc};
+    static const char* names[9] = {"connack", "puback", "pubrec", "pubrel", "pubcomp", "suback", "unsuback", "auth", "disconnect"};
+    bool listed = listed_tab[cat]->count(byte);
+    bool server_may = listed && !(cat == 7 && byte == 0x19) && !(cat == 8 && byte == 0x04);
+    // was the mutated packet sent and delivered at all?
+    uint8_t ptype = cat == 0 ? CONNACK : cat == 1 ? PUBACK : cat == 2 ? PUBREC : cat == 3 ? PUBREL : cat == 4 ? PUBCOMP : cat == 5 ? SUBACK : cat == 6 ? UNSUBACK : cat == 7 ? AUTH : DISCONNECT;
+    const bk::SentPkt* probe = nullptr;
+    for (auto& sp : B.sent) {
+        if (sp.pkt.type != ptype || !sp.delivered_seq) continue;
+        size_t off = (ptype == CONNACK) ? 3 : (ptype == SUBACK || ptype == UNSUBACK) ? sp.raw.size() - 1 : (ptype == DISCONNECT || ptype == AUTH) ? 2 : 4;
+        if (sp.raw.size() > off && (uint8_t)sp.raw[off] == byte) { probe = &sp; break; }
+    }
+    std::string what = std::string(names[cat]) + " 0x" + hex(std::string(1, (char)byte));
+    if (!probe) { fail("C20", "probe_not_delivered", what + ": the packet carrying this reason code was never delivered (harness)"); return; }
+    // how did the client react? surfaced value / accepted / treated as malformed
+    bool malformed_reaction = false;
+    for (auto& r : B.recv) if (r.conn == probe->conn && r.seq > probe->delivered_seq && r.decode_err.empty() && r.pkt.type == DISCONNECT && (r.pkt.rc == 0x81 || r.pkt.rc == 0x82)) malformed_reaction = true;
+    bool surfaced = false, accepted = false;
+    switch (cat) {
+    case 0: for (auto& l : s.logs) if (l.k == LogRec::connack && l.seq >= probe->delivered_seq && l.rc == byte) { surfaced = true; break; }
+            // with several CONNACKs in the run (reconnects) only the probe's value matters
+            accepted = surfaced; break;
+    case 1: case 4: case 2: {
+        for (auto& o : s.ops) if (o.kind == OpKind::publish && !o.dones.empty() && !o.dones[0].c.ec && o.dones[0].seq > probe->delivered_seq && o.dones[0].c.rc == byte) surfaced = true;
+        if (cat == 2 && byte < 0x80) {
+            // a successful PUBREC is not surfaced; accepted <=> the client went on with PUBREL on that connection
+            for (auto& r : B.recv) if (r.conn == probe->conn && r.seq > probe->delivered_seq && r.decode_err.empty() && r.pkt.type == PUBREL && r.pkt.pid == probe->pkt.pid) accepted = true;
+            surfaced = accepted;
+        } else accepted = surfaced;
+        break; }
+    case 3: for (auto& r : B.recv) if (r.conn == probe->conn && r.seq > probe->delivered_seq && r.decode_err.empty() && r.pkt.type == PUBCOMP && r.pkt.pid == probe->pkt.pid) accepted = true;
+            surfaced = accepted; break;
+    case 5: case 6:
+        for (auto& o : s.ops) if ((o.kind == OpKind::subscribe || o.kind == OpKind::unsubscribe) && !o.dones.empty() && !o.dones[0].c.ec && o.dones[0].seq > probe->delivered_seq &&
+                                  o.dones[0].c.rcs.size() == 1 && o.dones[0].c.rcs[0] == byte) surfaced = true;
+        accepted = surfaced; break;
+    case 7: for (auto& l : s.logs) if (l.k == LogRec::auth_step && l.seq > probe->delivered_seq && l.step >= 1) { accepted = true; break; }
+            // the first authenticator call after the probe must follow it directly (before any reconnect)
+            for (auto& c2 : s.net.conns) if (c2->id > probe->conn && accepted) { bool before = false; for (auto& l : s.logs) if (l.k == LogRec::auth_step && l.seq > probe->delivered_seq && l.step >= 1 && l.seq < c2->seq_begin) before = true; accepted = before; break; }
+            surfaced = accepted; break;
+    case 8: for (auto& l : s.logs) if (l.k == LogRec::disconnect && l.seq >= probe->delivered_seq) { accepted = true; if (l.rc == byte) surfaced = true; break; }
+            if (!listed_tab[8]->count(byte)) accepted = surfaced; break;
+    }
+    if (server_may && !surfaced)
+        fail("C20", "admissible_code_not_accepted", what + " may be sent by a Server but was not accepted / not surfaced with that value" + (malformed_reaction ? " (the client answered with DISCONNECT malformed)" : ""));
+    if (!listed && surfaced)
+        fail("C20", "inadmissible_code_surfaced", what + " is not listed for this packet type in MQTT 5 but was accepted and surfaced");
+    (void)accepted;
+}
+
 } // namespace app
